@@ -78,6 +78,7 @@ func runMapProtocolOn(c *Ctx, prefix, pkgRel, namePfx string, full bool) {
 	R.Rule(mp.rule("entry-tables"), "entry helpers: a value is returned only from a word found non-nil and not expunged; 'absent' only when the last loaded word is nil or expunged; success after a CAS only when that CAS succeeded", 5)
 	R.Rule(mp.rule("cas-retry-reloads"), "every iteration of a retry loop on entry.p loads the word again", 3)
 	R.Rule(mp.rule("dirty-copy-complete"), "rebuilding the dirty map: every entry of the read map is carried over under its key or is on the true edge of the expunging helper, which reports true only for an expunged entry", 2)
+	R.Rule(mp.rule("lookup-justified"), "Map methods act on what their lookups found: an entry taken from a lookup is used only where that lookup's presence flag is true; 'absent' is answered, and a new entry inserted, only where the key is missing from the latest snapshot of the read map and that snapshot is not amended or the key is missing from dirty too (an insertion always needs the miss in dirty)", 4)
 	R.Rule(mp.rule("effect-completeness"), "Store stores on every path; Load/LoadOrStore/LoadAndDelete return the entry operation's own result for the entry found after the re-check; Delete delegates to LoadAndDelete", 5)
 
 	mp.fMu = c.P.FieldOf(mp.pkg, "Map", "mu")
@@ -236,6 +237,7 @@ func runMapProtocolOn(c *Ctx, prefix, pkgRel, namePfx string, full bool) {
 	mp.noCallbackUnderLock()
 	mp.entryTables()
 	mp.dirtyCopyComplete()
+	mp.lookupJustified()
 	if full {
 		mp.effectCompleteness()
 	}
@@ -1382,7 +1384,19 @@ func (mp *mapProto) amendedOnNewKey() {
 								return true
 							})
 							if fresh && m.Op == "field" && sameField(m.Obj, mp.fROm) {
-								good = true
+								// ... and the dirty map has been made: a call of the function that creates it, under the
+								// same lock, before the insertion
+								ens := mp.dirtyEnsurers()
+								for j2 := lockIdx + 1; j2 < i && j2 >= 0; j2++ {
+									g := &p.Events[j2]
+									if g.Kind == "call" && g.SSAFn != nil {
+										if gi := c.P.BySSA[g.SSAFn]; gi != nil {
+											if _, isE := ens[gi]; isE {
+												good = true
+											}
+										}
+									}
+								}
 							}
 						}
 					}
@@ -1650,6 +1664,24 @@ func (mp *mapProto) rangePromotes() {
 				}
 			}
 			if e.Kind == "range" {
+				// the iterated map holds every key: it is the promoted dirty map, or the m of a snapshot that the path has
+				// found complete (not amended)
+				if !mp.isDirtyMap(p, e.Addr) {
+					complete := false
+					if isFieldLoad(e.Addr, mp.fROm, nil) {
+						if snap := fieldBase(e.Addr); snap != nil {
+							for _, cd := range p.Conds {
+								t, pol := stripNot(cd.T, cd.Pol)
+								if !pol && isFieldLoad(t, mp.fROam, nil) && fieldBase(t) != nil && fieldBase(t).Key() == snap.Key() {
+									complete = true
+								}
+							}
+						}
+					}
+					if !complete {
+						ok, why = false, "Range iterates a snapshot that it has not found complete (amended not tested false on it): keys that exist only in dirty are never visited ("+p.CondString()+")"
+					}
+				}
 				// when the first snapshot was amended, the iterated map must be the promoted dirty map or a fresh snapshot's m
 				m := e.Addr
 				snaps := mp.snapshotLoads(p)
@@ -1886,6 +1918,38 @@ func (mp *mapProto) effectCompleteness() {
 				if row.op == "(*entry).tryLoadOrStore" {
 					if len(r0.Args[0].Args) != 2 || !isParamOrSpill(p, r0.Args[0].Args[1], 2) {
 						ok, why = false, "tryLoadOrStore is not given the value"
+					}
+					// its first two results mean something only when the third says so - or when the entry cannot be
+					// expunged: under the lock, after the un-expunging helper has been called on it
+					call := r0.Args[0]
+					handled := false
+					for _, cd := range p.Conds {
+						t, pol := stripNot(cd.T, cd.Pol)
+						if pol && t.Op == "extract" && t.N == 2 && t.Args[0].Key() == call.Key() {
+							handled = true
+						}
+					}
+					if !handled {
+						for i := range p.Events {
+							e := &p.Events[i]
+							if e.Kind == "call" && e.Res != nil && e.Res.Key() == call.Key() {
+								if held, lockIdx, _ := mp.heldAt(p, i); held {
+									for j := lockIdx + 1; j < i; j++ {
+										f := &p.Events[j]
+										if f.Kind == "call" && strings.HasSuffix(f.Name, "(*entry).unexpungeLocked") && len(f.Args) > 0 && f.Args[0].Key() == ent.Key() {
+											handled = true
+										}
+									}
+									// an entry found in dirty only is never expunged
+									if mp.isDirtyMap(p, ent.Args[0].Args[0]) {
+										handled = true
+									}
+								}
+							}
+						}
+					}
+					if !handled {
+						ok, why = false, "returns tryLoadOrStore's value and flag on a path ("+p.CondString()+") that does not know them to be valid: its third result is not true there, and the entry may be expunged"
 					}
 				}
 				// LoadAndDelete: an entry found only in dirty must also be removed from dirty
@@ -2145,6 +2209,19 @@ func (mp *mapProto) entryTables() {
 			if len(p.Rets) == 3 && p.Rets[2].IsConst("true") && !derefs && p.Rets[0].Op != "param" {
 				ok, why = false, fmt.Sprintf("a path (%s) reports 'handled' with a result that is neither the value behind the word nor the caller's stored value", p.CondString())
 			}
+			// (8) the reverse of (2): a word last found nil or expunged holds no value - no success, 'found' or 'loaded'
+			// may be reported from it (unless a compare-and-swap then put something there)
+			if latest != nil && (fact(latest, "==", false) || fact(latest, "==", true)) && !(lastOp == "cas" && casOK) && lastOp != "store" {
+				for _, r := range p.Rets {
+					if r.IsConst("true") {
+						ok, why = false, fmt.Sprintf("a path (%s) reports success or 'found' although the word it last loaded was nil or expunged", p.CondString())
+					}
+				}
+			}
+			// (9) the caller's own value handed back means 'stored, not loaded'
+			if len(p.Rets) == 3 && p.Rets[0].Op == "param" && p.Rets[1].IsConst("true") {
+				ok, why = false, fmt.Sprintf("a path (%s) hands the caller's value back as 'loaded'", p.CondString())
+			}
 			// (7) ... and a compare-and-swap found successful has changed the word: the path may not tell its caller that
 			// nothing happened (the caller then writes a second time, and a value stored in between is overwritten by
 			// a write that already took effect once)
@@ -2187,6 +2264,26 @@ func (mp *mapProto) entryTables() {
 							ops++
 						case "cas", "store", "swap":
 							ops++
+						}
+					}
+					// a retry is what follows a lost race: an iteration that loops back without a compare-and-swap having
+					// failed in it spins for as long as the word stays what it is
+					{
+						failed := false
+						for i := at; i < len(p.Events); i++ {
+							e := &p.Events[i]
+							if isWordOp(e) != "cas" {
+								continue
+							}
+							for _, cd := range p.Conds {
+								t, pol := stripNot(cd.T, cd.Pol)
+								if t.Key() == e.Res.Key() && !pol {
+									failed = true
+								}
+							}
+						}
+						if !failed {
+							ok2, why2 = false, fmt.Sprintf("an iteration (%s) loops back without a failed compare-and-swap: nothing changes between two rounds, the loop does not end on a stable word", p.CondString())
 						}
 					}
 					if ops > 0 && loads == 0 {
@@ -2249,6 +2346,13 @@ func (mp *mapProto) entryTables() {
 func (mp *mapProto) dirtyCopyComplete() {
 	c := mp.c
 	rule := mp.rule("dirty-copy-complete")
+	// the function that creates the dirty map leaves it non-nil on every path: its callers insert right after it
+	for fi, why := range mp.dirtyEnsurers() {
+		o := c.R.Decide(why == "", rule, fi.Name, "ensures-dirty", c.pos(fi), "every returning path has made the dirty map or found it non-nil", why)
+		if why != "" {
+			o.Breaks = "the insertion that follows writes to a nil map (panic), or an existing dirty map is thrown away with the keys only it holds"
+		}
+	}
 	// expungers: entry helpers that CAS nil -> expunged
 	expunger := map[string]bool{}
 	for _, fi := range mp.funcs {
@@ -2401,4 +2505,198 @@ func (mp *mapProto) dirtyCopyComplete() {
 		}
 	}
 	_ = n
+}
+
+// ---- lookup-justified ------------------------------------------------------------------------
+//
+// The sequential meaning of the Map methods rests on three facts about every path: an entry is used only if the
+// lookup that produced it found something; "the key is absent" is concluded only from a miss in the latest snapshot
+// of the read map together with either "that snapshot is complete" (not amended) or a miss in the dirty map; and a
+// new entry is put into dirty only after a miss in both.
+
+func (mp *mapProto) lookupJustified() {
+	c := mp.c
+	rule := mp.rule("lookup-justified")
+	for _, fi := range mp.funcs {
+		if !mp.isMapRecv(fi) {
+			continue
+		}
+		ps := mp.paths[fi]
+		if len(ps) == 0 {
+			continue
+		}
+		// only functions that look a key up
+		looks := false
+		for _, p := range ps {
+			for _, cd := range p.Conds {
+				if t, _ := stripNot(cd.T, cd.Pol); t.Op == "extract" && t.N == 1 && t.Args[0].Op == "lookup" {
+					looks = true
+				}
+			}
+		}
+		if !looks {
+			continue
+		}
+		ok, why := true, ""
+		for _, p := range ps {
+			// facts, in path order
+			type fact struct {
+				nc  int
+				pol bool
+			}
+			found := map[string]fact{}    // lookup term key -> presence flag known
+			var lastSnap *Term            // the snapshot of the latest read-map lookup
+			notIn := map[string]bool{}    // snapshot key -> the key is missing from its map
+			amended := map[string]int{}   // snapshot key -> 1 amended, -1 not amended
+			dirtyMiss, dirtyKnown := false, false
+			for ci, cd := range p.Conds {
+				t, pol := stripNot(cd.T, cd.Pol)
+				if t.Op == "extract" && t.N == 1 && t.Args[0].Op == "lookup" && len(t.Args[0].Args) == 2 {
+					lk := t.Args[0]
+					if _, seen := found[lk.Key()]; !seen {
+						found[lk.Key()] = fact{ci, pol} // the first test of the flag decides when it is known
+					}
+					m := lk.Args[0]
+					if isFieldLoad(m, mp.fROm, nil) {
+						snap := fieldBase(m)
+						if snap != nil {
+							lastSnap = snap
+							notIn[snap.Key()] = !pol
+						}
+					} else if mp.isDirtyMap(p, m) {
+						dirtyKnown, dirtyMiss = true, !pol
+					}
+				}
+				if isFieldLoad(t, mp.fROam, nil) {
+					if snap := fieldBase(t); snap != nil {
+						if pol {
+							amended[snap.Key()] = 1
+						} else {
+							amended[snap.Key()] = -1
+						}
+					}
+				}
+			}
+			_ = dirtyKnown
+			absentKnown := lastSnap != nil && notIn[lastSnap.Key()] && (amended[lastSnap.Key()] == -1 || dirtyMiss)
+			// (1) an entry taken from a lookup is used only where the lookup found it
+			for i := range p.Events {
+				e := &p.Events[i]
+				var uses []*Term
+				switch e.Kind {
+				case "call":
+					if strings.Contains(e.Name, "(*entry).") && len(e.Args) > 0 {
+						uses = append(uses, e.Args[0])
+					}
+				case "mapupdate":
+					uses = append(uses, e.Val)
+				}
+				for _, u := range uses {
+					if u == nil || !(u.Op == "extract" && u.N == 0 && u.Args[0].Op == "lookup") {
+						continue
+					}
+					f, known := found[u.Args[0].Key()]
+					if !known || !f.pol || f.nc > e.NCond {
+						ok, why = false, fmt.Sprintf("a path (%s) uses the entry of a lookup that it has not found present: %s", p.CondString(), e.String())
+					}
+				}
+			}
+			// (2) the absent row
+			entryOps := 0
+			for i := range p.Events {
+				if e := &p.Events[i]; e.Kind == "call" && strings.Contains(e.Name, "(*entry).") {
+					entryOps++
+				}
+			}
+			// (decided from the lookups alone: where an entry was found and operated on, that operation's own result
+			// says whether a value was there - entry-tables, effect-completeness)
+			if p.End == EndReturn && len(p.Rets) == 2 && isZeroish(p.Rets[0]) && p.Rets[1].IsConst("false") && !absentKnown && entryOps == 0 {
+				ok, why = false, fmt.Sprintf("a path (%s) answers 'absent' without a miss in the latest snapshot of the read map plus either 'not amended' or a miss in dirty", p.CondString())
+			}
+			// (3) a new entry enters dirty only after a miss in the read map and in dirty
+			for i := range p.Events {
+				e := &p.Events[i]
+				if e.Kind != "mapupdate" || !mp.isDirtyMap(p, e.Addr) {
+					continue
+				}
+				if e.Val.Op == "extract" && e.Val.Args[0].Op == "lookup" {
+					continue // an existing entry put back (unexpunge): (1)
+				}
+				if _, isLoop := e.Key.Val.(*ssa.Extract); isLoop && !isParam(e.Key, 1) {
+					continue // rebuilding dirty from the read map (dirty-copy-complete)
+				}
+				if e.Key == nil || e.Key.Op == "next" || strings.Contains(e.Key.Key(), "next") {
+					continue
+				}
+				if !(lastSnap != nil && notIn[lastSnap.Key()] && dirtyMiss) {
+					ok, why = false, fmt.Sprintf("a path (%s) inserts a new entry into dirty without a miss in the read map and in dirty: the entry that other goroutines hold is replaced", p.CondString())
+				}
+			}
+		}
+		o := c.R.Decide(ok, rule, fi.Name, "rows", c.pos(fi), "entries used where found; absence and insertion decided by misses in the latest snapshot and in dirty", why)
+		if !ok {
+			o.Breaks = "a present key is reported absent, a stored value is replaced behind a reader's back, or a nil entry is dereferenced"
+		}
+	}
+}
+
+// fieldBase: the struct value (or pointer) a field read is taken from.
+func fieldBase(t *Term) *Term {
+	if t == nil {
+		return nil
+	}
+	if t.Op == "field" && len(t.Args) == 1 {
+		return t.Args[0]
+	}
+	if t.Op == "load" && len(t.Args) == 1 && t.Args[0].Op == "faddr" && len(t.Args[0].Args) == 1 {
+		return t.Args[0].Args[0]
+	}
+	return nil
+}
+
+// dirtyEnsurers: functions of the map implementation that create the dirty map (store a freshly made map into the
+// field). ok[fi] tells whether every returning path leaves dirty non-nil: it stores a made map, or has found
+// m.dirty != nil.
+func (mp *mapProto) dirtyEnsurers() map[*FuncInfo]string {
+	out := map[*FuncInfo]string{}
+	for _, fi := range mp.funcs {
+		makes := false
+		for _, p := range mp.paths[fi] {
+			for i := range p.Events {
+				e := &p.Events[i]
+				if e.Kind == "store" && mp.isDirtyAddr(e.Addr) && e.Val.Op == "mkmap" {
+					makes = true
+				}
+			}
+		}
+		if !makes {
+			continue
+		}
+		why := ""
+		for _, p := range mp.paths[fi] {
+			if p.End != EndReturn {
+				continue
+			}
+			good := false
+			for i := range p.Events {
+				e := &p.Events[i]
+				if e.Kind == "store" && mp.isDirtyAddr(e.Addr) {
+					good = e.Val.Op == "mkmap"
+				}
+			}
+			if !good {
+				for _, cd := range p.Conds {
+					r := cd.Rel()
+					if r.B != nil && r.Op == "!=" && (r.A.Op == "load" && mp.isDirtyAddr(r.A.Args[0]) && r.B.IsNil() || r.B.Op == "load" && mp.isDirtyAddr(r.B.Args[0]) && r.A.IsNil()) {
+						good = true
+					}
+				}
+			}
+			if !good {
+				why = "a path (" + p.CondString() + ") returns without having made the dirty map or found it non-nil"
+			}
+		}
+		out[fi] = why
+	}
+	return out
 }
